@@ -21,7 +21,7 @@ Strs == StringsUpTo(Alphabet, MaxLen)
 
 Init == s1 \in Strs /\ s2 = <<>> /\ k = 1 /\ n = 1 /\ ph = 0
 Choose(t, kk, nn) == ph = 0 /\ ph' = 1 /\ s2' = t /\ k' = kk /\ n' = nn /\ UNCHANGED s1
-Next == \E t \in StringsUpTo(Alphabet, MaxLen2), kk \in 1..MaxK, nn \in 1..MaxN : Choose(t, kk, nn)
+Next == ph = 0 /\ \E t \in StringsUpTo(Alphabet, MaxLen2), kk \in 1..MaxK, nn \in 1..MaxN : Choose(t, kk, nn)
 
 \* injective on upper-case ACGT words of length <= 3 (codes < 127, 37 is a unit modulo the prime 127)
 Digit(b) == CASE b = 65 -> 1 [] b = 67 -> 2 [] b = 71 -> 3 [] b = 84 -> 4 [] OTHER -> 0
